@@ -1,3 +1,4 @@
+\* run with -simulate: random histories of exactly 9 calls over the wide alphabet (3 patterns, 7 handler kinds, 3 host patterns, 6 Cors values)
 CONSTANTS
   Pats = {"/a", "/a/*", "/*"}
   HKinds = {"plain", "ownO", "ownM", "ownH", "ownAll", "cred", "dupO"}
